@@ -69,14 +69,15 @@ theorem appendAndStore_clean (E : Env) (hF : ∀ a, E.F a = false) (hQ : E.Q = {
 
 /-- refused: nothing was issued, no step had an effect; result and in-memory state are those of the `Api.Exec` step, or the
 call is handed back (`busy`) with the state untouched -/
-structure Refused (p : PSt Node VH) (c : Call) (out : Out Node VH) : Prop where
+structure Refused (E : Env) (p : PSt Node VH) (c : Call) (out : Out Node VH) : Prop where
   not_ok : out.res ≠ .ok
   no_effect : noEffect out.trace = true
   no_fail : noFail out.trace = true
   no_io : ∀ pos, failedAt pos out.trace = false
   disk : out.st.disk = p.disk
   poisoned : out.st.poisoned = p.poisoned
-  spec : (out.res = (specCall H p.mem c).1 ∧ out.st.mem = (specCall H p.mem c).2) ∨ (out.res = .busy ∧ out.st = p)
+  spec : (out.res = (specCall H p.mem c).1 ∧ out.st.mem = (specCall H p.mem c).2) ∨
+    (E.rbLockFree = false ∧ out.res = .busy ∧ out.st = p)
 
 /-- accepted: the `Api.Exec` step succeeds with `m'`; the trace is a fault-free prefix followed by a tail described by
 `TailSpec`, whose completed form leaves `m'` in memory -/
@@ -101,7 +102,7 @@ variable {Node VH : Type} [DecidableEq Node] [DecidableEq VH] (H : Hasher Node V
 
 /-- `FinishedSession::commit` on an un-poisoned handle -/
 theorem commitFin_shape (E : Env) (hQ : E.Q = {}) (p : PSt Node VH) (fid : Nat) (hp : p.poisoned = false) :
-    Refused H p (.commit fid) (commitFinP E p fid) ∨ Accepted H E p (.commit fid) (commitFinP E p fid) := by
+    Refused H E p (.commit fid) (commitFinP E p fid) ∨ Accepted H E p (.commit fid) (commitFinP E p fid) := by
   unfold commitFinP
   cases ht : takeFin p.mem fid with
   | none =>
@@ -138,7 +139,7 @@ theorem commitOvBody_shape (E : Env) (hQ : E.Q = {}) (p : PSt Node VH) (oid : Na
     (hp : p.poisoned = false) (ho : p.mem.ov? oid = some o) (hheld : o.held = true) (hpar : parentOk p.mem o = true)
     (ht1 : noEffect t0 = true) (ht2 : noFail t0 = true) (ht3 : ∀ pos, failedAt pos t0 = false)
     (c : Call) (hc : specCall H p.mem c = commitOv p.mem oid) :
-    Refused H p c (commitOvBody E p oid o t0) ∨ Accepted H E p c (commitOvBody E p oid o t0) := by
+    Refused H E p c (commitOvBody E p oid o t0) ∨ Accepted H E p c (commitOvBody E p oid o t0) := by
   have hq : E.Q.markBeforeRootCheck = false := by rw [hQ]
   have hpf : ¬ (p.poisoned = true) := by simp [hp]
   have hspec := commitOv_eq p.mem oid
@@ -165,7 +166,7 @@ theorem commitOvBody_shape (E : Env) (hQ : E.Q = {}) (p : PSt Node VH) (oid : Na
 
 /-- `Overlay::commit` on an un-poisoned handle -/
 theorem commitOv_shape (E : Env) (hQ : E.Q = {}) (p : PSt Node VH) (oid : Nat) (hp : p.poisoned = false) :
-    Refused H p (.ocommit oid) (commitOvP E p oid) ∨ Accepted H E p (.ocommit oid) (commitOvP E p oid) := by
+    Refused H E p (.ocommit oid) (commitOvP E p oid) ∨ Accepted H E p (.ocommit oid) (commitOvP E p oid) := by
   unfold commitOvP
   have hspec := commitOv_eq p.mem oid
   cases ho : p.mem.ov? oid with
@@ -193,7 +194,7 @@ theorem commitOv_shape (E : Env) (hQ : E.Q = {}) (p : PSt Node VH) (oid : Nat) (
 
 /-- `Overlay::try_commit_nonblocking` on an un-poisoned handle -/
 theorem tryCommitOv_shape (E : Env) (hQ : E.Q = {}) (p : PSt Node VH) (oid : Nat) (hp : p.poisoned = false) :
-    Refused H p (.otryCommit oid) (tryCommitOvP E p oid) ∨ Accepted H E p (.otryCommit oid) (tryCommitOvP E p oid) := by
+    Refused H E p (.otryCommit oid) (tryCommitOvP E p oid) ∨ Accepted H E p (.otryCommit oid) (tryCommitOvP E p oid) := by
   unfold tryCommitOvP
   have hspec := tryCommitOv_eq p.mem oid
   cases ho : p.mem.ov? oid with
@@ -309,7 +310,7 @@ theorem syncedMem_tryMem (m : St Node VH) (ws delta : Writes VH) (root : Node) :
 
 /-- `FinishedSession::try_commit_nonblocking` on an un-poisoned handle -/
 theorem tryCommitFin_shape (E : Env) (hQ : E.Q = {}) (p : PSt Node VH) (fid : Nat) (hp : p.poisoned = false) :
-    Refused H p (.tryCommit fid) (tryCommitFinP E p fid) ∨ Accepted H E p (.tryCommit fid) (tryCommitFinP E p fid) := by
+    Refused H E p (.tryCommit fid) (tryCommitFinP E p fid) ∨ Accepted H E p (.tryCommit fid) (tryCommitFinP E p fid) := by
   have hq : E.Q.rbBeforeRootCheck = false := by rw [hQ]
   have hpf : ¬ (p.poisoned = true) := by simp [hp]
   unfold tryCommitFinP
@@ -335,7 +336,11 @@ theorem tryCommitFin_shape (E : Env) (hQ : E.Q = {}) (p : PSt Node VH) (fid : Na
         by_cases hl : (m1.rollbackOn && !E.rbLockFree) = true
         · left
           rw [if_pos hl]
-          constructor <;> simp [Step.effect, Step.failedIo, Step.failedAt]
+          have hlf : E.rbLockFree = false := by
+            cases h : E.rbLockFree
+            · rfl
+            · simp [h] at hl
+          constructor <;> simp [Step.effect, Step.failedIo, Step.failedAt, hlf]
         · right
           rw [if_neg hl]
           have hp1 : ({ p with mem := m1 } : PSt Node VH).poisoned = false := hp
@@ -364,7 +369,7 @@ def NoOp (p : PSt Node VH) (c : Call) (out : Out Node VH) : Prop :=
 /-- `Nomt::rollback` on an un-poisoned handle whose `finish` does not fail -/
 theorem rollback_shape (E : Env) (hQ : E.Q = {}) (hfin : E.finishOk = true) (p : PSt Node VH) (n : Nat)
     (hp : p.poisoned = false) :
-    NoOp H p (.rollback n) (rollbackP H E p n) ∨ Refused H p (.rollback n) (rollbackP H E p n) ∨
+    NoOp H p (.rollback n) (rollbackP H E p n) ∨ Refused H E p (.rollback n) (rollbackP H E p n) ∨
     Accepted H E p (.rollback n) (rollbackP H E p n) := by
   have hpf : ¬ (p.poisoned = true) := by simp [hp]
   unfold rollbackP
@@ -410,12 +415,342 @@ theorem rollback_shape (E : Env) (hQ : E.Q = {}) (hfin : E.finishOk = true) (p :
 /-- **master lemma**: every call on an un-poisoned handle is a no-op `Ok`, refused, or accepted -/
 theorem call_shape (E : Env) (hQ : E.Q = {}) (hfin : E.finishOk = true) (p : PSt Node VH) (c : Call)
     (hp : p.poisoned = false) :
-    NoOp H p c (runCall H E p c) ∨ Refused H p c (runCall H E p c) ∨ Accepted H E p c (runCall H E p c) := by
+    NoOp H p c (runCall H E p c) ∨ Refused H E p c (runCall H E p c) ∨ Accepted H E p c (runCall H E p c) := by
   cases c with
   | commit fid => exact .inr (commitFin_shape H E hQ p fid hp)
   | tryCommit fid => exact .inr (tryCommitFin_shape H E hQ p fid hp)
   | ocommit oid => exact .inr (commitOv_shape H E hQ p oid hp)
   | otryCommit oid => exact .inr (tryCommitOv_shape H E hQ p oid hp)
   | rollback n => exact rollback_shape H E hQ hfin p n hp
+
+end Nomt.Api.Pipe
+
+namespace Nomt.Api.Pipe
+open Nomt Nomt.Api
+variable {Node VH : Type} [DecidableEq Node] [DecidableEq VH] (H : Hasher Node VH)
+
+/-! ### a poisoned handle -/
+
+/-- the in-memory state differs at most by the handle the call consumed -/
+def HandleOnly (m m' : St Node VH) : Prop :=
+  m' = m ∨ (∃ fid, m' = { m with fins := m.fins.filter (·.id != fid) }) ∨ (∃ oid, m' = dropOv m oid)
+
+theorem HandleOnly.obs {m m' : St Node VH} (h : HandleOnly m m') : obs m' = obs m := by
+  rcases h with rfl | ⟨fid, rfl⟩ | ⟨oid, rfl⟩
+  · rfl
+  · rfl
+  · exact obs_dropOv m oid
+
+theorem HandleOnly.committed {m m' : St Node VH} (h : HandleOnly m m') :
+    ∀ x ∈ m'.ovs, x.committed = true → ∃ y ∈ m.ovs, y.id = x.id ∧ y.committed = true := by
+  rcases h with rfl | ⟨fid, rfl⟩ | ⟨oid, rfl⟩
+  · intro x hx hc; exact ⟨x, hx, rfl, hc⟩
+  · intro x hx hc; exact ⟨x, hx, rfl, hc⟩
+  · exact dropOv_committed_sub m oid
+
+/-- the four commits on a poisoned handle: refused before anything happens -/
+theorem poisoned_commit (E : Env) (p : PSt Node VH) (c : Call) (hp : p.poisoned = true) (hc : ∀ n, c ≠ .rollback n) :
+    (runCall H E p c).res ≠ .ok ∧ noEffect (runCall H E p c).trace = true ∧ noFail (runCall H E p c).trace = true ∧
+    (∀ pos, failedAt pos (runCall H E p c).trace = false) ∧
+    (runCall H E p c).st.poisoned = true ∧ (runCall H E p c).st.disk = p.disk ∧
+    HandleOnly p.mem (runCall H E p c).st.mem ∧ ((runCall H E p c).res = .busy → (runCall H E p c).st = p) := by
+  cases c with
+  | rollback n => exact absurd rfl (hc n)
+  | commit fid =>
+    simp only [runCall, commitFinP]
+    cases ht : takeFin p.mem fid with
+    | none => simp [hp, HandleOnly]
+    | some fm =>
+      obtain ⟨f, m1⟩ := fm
+      simp [hp, HandleOnly, Step.effect, Step.failedIo, Step.failedAt, (takeFin_some ht).2]
+      exact .inr (.inl ⟨fid, rfl⟩)
+  | tryCommit fid =>
+    simp only [runCall, tryCommitFinP]
+    cases hb : p.mem.sess.any (·.guard)
+    · simp only [Bool.false_eq_true, if_false]
+      cases ht : takeFin p.mem fid with
+      | none => simp [hp, HandleOnly]
+      | some fm =>
+        obtain ⟨f, m1⟩ := fm
+        simp [hp, HandleOnly, Step.effect, Step.failedIo, Step.failedAt, (takeFin_some ht).2]
+        exact .inr (.inl ⟨fid, rfl⟩)
+    · simp [hp, HandleOnly, Step.effect, Step.failedIo, Step.failedAt]
+  | ocommit oid =>
+    simp only [runCall, commitOvP]
+    cases ho : p.mem.ov? oid with
+    | none => simp [hp, HandleOnly]
+    | some o =>
+      cases hh : o.held
+      · simp [hp, hh, HandleOnly]
+      · cases hpar : parentOk p.mem o
+        · simp [hp, hh, hpar, HandleOnly, Step.effect, Step.failedIo, Step.failedAt]
+          exact .inr (.inr ⟨oid, rfl⟩)
+        · simp [hp, hh, hpar, commitOvBody, HandleOnly, Step.effect, Step.failedIo, Step.failedAt]
+          exact .inr (.inr ⟨oid, rfl⟩)
+  | otryCommit oid =>
+    simp only [runCall, tryCommitOvP]
+    cases ho : p.mem.ov? oid with
+    | none => simp [hp, HandleOnly]
+    | some o =>
+      cases hpar : parentOk p.mem o
+      · simp [hp, hpar, HandleOnly, Step.effect, Step.failedIo, Step.failedAt]
+        exact .inr (.inr ⟨oid, rfl⟩)
+      · cases hb : p.mem.sess.any (·.guard)
+        · cases hh : o.held
+          · simp [hp, hb, hh, hpar, HandleOnly]
+          · simp [hp, hb, hh, hpar, commitOvBody, HandleOnly, Step.effect, Step.failedIo, Step.failedAt]
+            exact .inr (.inr ⟨oid, rfl⟩)
+        · simp [hp, hb, hpar, HandleOnly, Step.effect, Step.failedIo, Step.failedAt]
+
+/-- `rollback(n)` on a poisoned handle returns `Err` (for `n > 0`) and leaves values, root, sequence number, marker, overlays
+and the disk alone — but NOT the in-memory rollback log: `Rollback::truncate(n)` runs before the poison flag is looked at -/
+theorem poisoned_rollback (E : Env) (p : PSt Node VH) (n : Nat) (hp : p.poisoned = true) (hn : n ≠ 0) :
+    (rollbackP H E p n).res = .err ∧ noFail (rollbackP H E p n).trace = true ∧
+    (∀ pos, failedAt pos (rollbackP H E p n).trace = false) ∧
+    (rollbackP H E p n).st.poisoned = true ∧ (rollbackP H E p n).st.disk = p.disk ∧
+    ((rollbackP H E p n).st.mem = p.mem ∨
+     (p.mem.rollbackOn = true ∧ n ≤ p.mem.log.length ∧
+      (rollbackP H E p n).st.mem = { p.mem with log := p.mem.log.drop n })) := by
+  unfold rollbackP
+  simp only [if_neg hn]
+  cases hro : p.mem.rollbackOn
+  · simp [hp, Step.failedIo, Step.failedAt]
+  · simp only [Bool.not_true, Bool.false_eq_true, if_false]
+    by_cases hl : n > p.mem.log.length
+    · simp [hl, hp, Step.failedIo, Step.failedAt]
+    · rw [if_neg hl]
+      cases E.finishOk <;> simp [hp, Step.failedIo, Step.failedAt] <;> omega
+
+end Nomt.Api.Pipe
+
+namespace Nomt.Api.Pipe
+open Nomt Nomt.Api
+variable {Node VH : Type} [DecidableEq Node] [DecidableEq VH] (H : Hasher Node VH)
+
+/-- no call issues an I/O operation unless it goes through one of the tails: in particular a rollback whose `finish` fails
+returns `Err` **without poison** after `truncate(n)` has popped the in-memory log -/
+theorem rollback_finish_fails (E : Env) (hfin : E.finishOk = false) (p : PSt Node VH) (n : Nat) :
+    noFail (rollbackP H E p n).trace = true ∧ (∀ pos, failedAt pos (rollbackP H E p n).trace = false) ∧
+    (rollbackP H E p n).st.disk = p.disk ∧ (rollbackP H E p n).st.poisoned = p.poisoned ∧
+    ((rollbackP H E p n).res = .ok → n = 0 ∧ (rollbackP H E p n).st = p) ∧
+    ((rollbackP H E p n).st.mem = p.mem ∨
+     (n ≠ 0 ∧ p.mem.rollbackOn = true ∧ n ≤ p.mem.log.length ∧ (rollbackP H E p n).res = .err ∧
+      (rollbackP H E p n).st.mem = { p.mem with log := p.mem.log.drop n })) := by
+  unfold rollbackP
+  by_cases h0 : n = 0
+  · simp [h0]
+  · simp only [if_neg h0]
+    cases hro : p.mem.rollbackOn
+    · simp [Step.failedIo, Step.failedAt]
+    · simp only [Bool.not_true, Bool.false_eq_true, if_false]
+      by_cases hl : n > p.mem.log.length
+      · simp [hl, Step.failedIo, Step.failedAt]
+      · rw [if_neg hl]
+        simp [hfin, Step.failedIo, Step.failedAt, h0]
+        omega
+
+end Nomt.Api.Pipe
+
+namespace Nomt.Api.Pipe
+open Nomt Nomt.Api
+variable {Node VH : Type} [DecidableEq Node] [DecidableEq VH] (H : Hasher Node VH)
+
+/-- the shape of a call on an un-poisoned handle, without the `finish` hypothesis for the four commits -/
+def Shape (E : Env) (p : PSt Node VH) (c : Call) (out : Out Node VH) : Prop :=
+  NoOp H p c out ∨ Refused H E p c out ∨ Accepted H E p c out
+
+theorem commit_shape (E : Env) (hQ : E.Q = {}) (p : PSt Node VH) (c : Call) (hp : p.poisoned = false)
+    (hc : (∀ n, c ≠ .rollback n) ∨ E.finishOk = true) : Shape H E p c (runCall H E p c) := by
+  cases c with
+  | commit fid => exact .inr (commitFin_shape H E hQ p fid hp)
+  | tryCommit fid => exact .inr (tryCommitFin_shape H E hQ p fid hp)
+  | ocommit oid => exact .inr (commitOv_shape H E hQ p oid hp)
+  | otryCommit oid => exact .inr (tryCommitOv_shape H E hQ p oid hp)
+  | rollback n =>
+    rcases hc with hc | hc
+    · exact absurd rfl (hc n)
+    · exact rollback_shape H E hQ hc p n hp
+
+/-- in every shape a failed operation means `Err` and poison -/
+theorem Shape.fault_err {E : Env} {p : PSt Node VH} {c : Call} {out : Out Node VH} (h : Shape H E p c out)
+    (hfail : noFail out.trace = false) : out.res = .err ∧ out.st.poisoned = true := by
+  rcases h with hno | href | hacc
+  · rw [hno.2.2.1] at hfail; simp at hfail
+  · rw [href.no_fail] at hfail; cases hfail
+  · obtain ⟨m', _, t0, t, trim, ws, pX, mX, htr, ht0, _, _, hts, _, _⟩ := hacc.ex
+    rw [htr, noFail_append, ht0, Bool.true_and] at hfail
+    have hne : out.res ≠ .ok := fun h => by rw [hts.ok_iff.mp h] at hfail; cases hfail
+    have herr : out.res = .err := by
+      cases hr : out.res
+      · exact absurd hr hne
+      · rfl
+      · exact absurd hr hts.not_busy
+    exact ⟨herr, hts.err_poisons herr⟩
+
+end Nomt.Api.Pipe
+
+namespace Nomt.Api.Pipe
+open Nomt Nomt.Api
+variable {Node VH : Type} [DecidableEq Node] [DecidableEq VH] (H : Hasher Node VH)
+
+theorem postDur_eq (trim : Bool) (ws : Writes VH) (m : St Node VH) : postDur trim ws m = durOf (syncedMem trim ws m) := rfl
+
+/-- a healthy handle: not poisoned, the disk holds exactly the committed state in memory -/
+def Healthy (p : PSt Node VH) : Prop :=
+  p.poisoned = false ∧ p.disk = { synced := durOf p.mem, pending := none, tableInWal := false, corrupt := false }
+
+theorem healthy_ofSt (s : St Node VH) : Healthy (PSt.ofSt s) := ⟨rfl, rfl⟩
+
+/-- a refused `Api.Exec` step leaves the committed state alone -/
+theorem specCall_not_ok_obs (s : St Node VH) (c : Call) (h : (specCall H s c).1 ≠ .ok) : obs (specCall H s c).2 = obs s := by
+  cases c with
+  | commit fid => exact commitFin_not_ok_obs s fid h
+  | tryCommit fid => exact tryCommitFin_not_ok_obs s fid h
+  | ocommit oid => exact commitOv_not_ok_obs s oid h
+  | otryCommit oid => exact tryCommitOv_not_ok_obs s oid h
+  | rollback n => simp only [specCall] at h ⊢; rw [rollback_not_ok H s n h]
+
+theorem durOf_of_obs {s s' : St Node VH} (h : obs s' = obs s) : durOf s' = durOf s := by
+  simp only [obs, Prod.mk.injEq] at h
+  obtain ⟨h1, h2, h3, h4, _⟩ := h
+  simp [durOf, h1, h2, h3, h4]
+
+/-- **the disk after any call on a healthy handle**, by the position of the failing operation -/
+theorem Shape.durable {E : Env} {p : PSt Node VH} {c : Call} {out : Out Node VH} (h : Shape H E p c out)
+    (hh : Healthy p) :
+    out.st.disk.corrupt = false ∧
+    ((failedAt .rbAppend out.trace || failedAt .preMeta out.trace || failedAt .metaWrite out.trace) = true →
+      out.st.disk = p.disk) ∧
+    (failedAt .metaFsync out.trace = true →
+      (specCall H p.mem c).1 = .ok ∧
+      out.st.disk = { p.disk with pending := some (durOf (specCall H p.mem c).2) }) ∧
+    (failedAt .postMeta out.trace = true →
+      (specCall H p.mem c).1 = .ok ∧
+      out.st.disk.synced = durOf (specCall H p.mem c).2 ∧ out.st.disk.pending = none) ∧
+    (out.res = .ok →
+      (specCall H p.mem c).1 = .ok ∧ noFail out.trace = true ∧
+      out.st = PSt.ofSt (specCall H p.mem c).2) ∧
+    (out.res ≠ .ok → noFail out.trace = true → out.st.disk = p.disk ∧ out.st.poisoned = false) := by
+  obtain ⟨hp, hd⟩ := hh
+  rcases h with hno | href | hacc
+  · obtain ⟨h1, h2, h3, h4⟩ := hno
+    rw [h3, h2, h4]
+    refine ⟨by rw [hd], by simp, by simp, by simp, fun _ => ⟨rfl, rfl, ?_⟩, fun hne => absurd h1 hne⟩
+    obtain ⟨mem, poisoned, disk⟩ := p
+    simp only at hp hd
+    subst hp hd
+    rfl
+  · have hn := href.no_io
+    refine ⟨by rw [href.disk, hd], fun _ => href.disk, ?_, ?_, fun hok => absurd hok href.not_ok,
+      fun _ _ => ⟨href.disk, by rw [href.poisoned, hp]⟩⟩
+    · intro hf; rw [hn] at hf; cases hf
+    · intro hf; rw [hn] at hf; cases hf
+  · obtain ⟨m', hspec, t0, t, trim, ws, pX, mX, htr, ht0, ht0', hpX, hts, hm', _⟩ := hacc.ex
+    have hfa : ∀ pos, failedAt pos out.trace = failedAt pos t := by
+      intro pos; rw [htr, failedAt_append, ht0' pos, Bool.false_or]
+    have hnf : noFail out.trace = noFail t := by rw [htr, noFail_append, ht0, Bool.true_and]
+    have hpd : postDur trim ws mX = durOf m' := by rw [postDur_eq, hm']
+    rw [hspec]
+    simp only [hfa, hnf]
+    have hcor : out.st.disk.corrupt = false := by
+      cases hn : noFail t
+      · have := noFail_eq_not_failedAt t
+        rw [hn] at this
+        by_cases h1 : failedAt .rbAppend t = true
+        · rw [hts.rb h1, hpX, hd]
+        · by_cases h2 : (failedAt .preMeta t || failedAt .metaWrite t) = true
+          · rw [hts.pre h2, hpX, hd]
+          · by_cases h3 : failedAt .metaFsync t = true
+            · rw [hts.metaFsync h3, hpX, hd]
+            · by_cases h4 : failedAt .postMeta t = true
+              · rw [(hts.post h4).2.2.2, hpX, hd]
+              · simp only [Bool.not_eq_true] at h1 h2 h3 h4
+                simp only [Bool.or_eq_false_iff] at h2
+                rw [h1, h2.1, h2.2, h3, h4] at this
+                cases this
+      · rw [hts.done (hts.ok_iff.mpr hn), hpX, hd]
+    refine ⟨hcor, ?_, ?_, ?_, ?_, ?_⟩
+    · intro hf
+      by_cases h1 : failedAt .rbAppend t = true
+      · rw [hts.rb h1, hpX]
+      · have h2 : (failedAt .preMeta t || failedAt .metaWrite t) = true := by
+          simp only [Bool.not_eq_true] at h1
+          rw [h1, Bool.false_or] at hf
+          exact hf
+        rw [hts.pre h2, hpX]
+    · intro hf; rw [hts.metaFsync hf, hpX, hpd]; exact ⟨trivial, rfl⟩
+    · intro hf; obtain ⟨_, h2, h3, _⟩ := hts.post hf; rw [h2, h3, hpd]; exact ⟨trivial, rfl, rfl⟩
+    · intro hok
+      refine ⟨trivial, hts.ok_iff.mp hok, ?_⟩
+      rw [hts.done hok, hpX, hd, hpd, hm']; rfl
+    · intro hne hn; exact absurd (hts.ok_iff.mpr hn) hne
+
+/-- **without a fault the pipeline is the `Api.Exec` step** -/
+theorem Shape.clean {E : Env} {s : St Node VH} {c : Call} {out : Out Node VH} (h : Shape H E (PSt.ofSt s) c out)
+    (hF : ∀ a, E.F a = false) (hl : E.rbLockFree = true) :
+    out.res = (specCall H s c).1 ∧ out.st = PSt.ofSt (specCall H s c).2 := by
+  have hd := Shape.durable H h (healthy_ofSt s)
+  rcases h with hno | href | hacc
+  · obtain ⟨h1, h2, h3, h4⟩ := hno
+    simp only [PSt.ofSt] at h4 ⊢
+    rw [h4, h1, h2]; exact ⟨rfl, rfl⟩
+  · rcases href.spec with ⟨h1, h2⟩ | ⟨h1, _, _⟩
+    · have h1 : out.res = (specCall H s c).1 := h1
+      have h2 : out.st.mem = (specCall H s c).2 := h2
+      refine ⟨h1, ?_⟩
+      have hne : (specCall H s c).1 ≠ .ok := by rw [← h1]; exact href.not_ok
+      have ho := durOf_of_obs (specCall_not_ok_obs H s c hne)
+      have h3 := href.disk
+      have h4 := href.poisoned
+      simp only [PSt.ofSt] at h2 h3 h4 ho ⊢
+      cases hst : out.st with
+      | mk mem poisoned disk =>
+        rw [hst] at h2 h3 h4
+        simp only at h2 h3 h4
+        rw [h2, h3, h4, ho]
+    · rw [hl] at h1; cases h1
+  · obtain ⟨m', hspec, t0, t, trim, ws, pX, mX, htr, ht0, ht0', hpX, hts, hm', hclean⟩ := hacc.ex
+    have hok := hclean hF
+    have := (hd.2.2.2.2.1 hok).2.2
+    simp only [PSt.ofSt] at hspec this ⊢
+    rw [hspec] at this ⊢
+    exact ⟨hok, this⟩
+
+/-- **a call that is refused** (any result but `Ok`, nothing failed) on an un-poisoned handle performed no step with an effect;
+disk and poison flag are untouched; the in-memory state is the one the refused `Api.Exec` step leaves, or — handed back —
+the very same state -/
+theorem Shape.refused {E : Env} {p : PSt Node VH} {c : Call} {out : Out Node VH} (h : Shape H E p c out)
+    (hne : out.res ≠ .ok) (hnf : noFail out.trace = true) : Refused H E p c out := by
+  rcases h with hno | href | hacc
+  · exact absurd hno.1 hne
+  · exact href
+  · obtain ⟨m', hspec, t0, t, trim, ws, pX, mX, htr, ht0, ht0', hpX, hts, hm', _⟩ := hacc.ex
+    rw [htr, noFail_append, ht0, Bool.true_and] at hnf
+    exact absurd (hts.ok_iff.mpr hnf) hne
+
+end Nomt.Api.Pipe
+
+namespace Nomt.Api.Pipe
+open Nomt Nomt.Api
+variable {Node VH : Type} [DecidableEq Node] [DecidableEq VH]
+
+/-! ### the hinge between the pipeline and the disk model: what the position of the failing operation means for the disk -/
+
+inductive Cut where
+  | old            -- nothing of the new state is named by a meta page
+  | metaVolatile   -- the new meta page is written, not fsynced
+  | new            -- the new meta page is durable
+deriving DecidableEq, Repr
+
+def Pos.cut : Pos → Cut
+  | .rbAppend | .preMeta | .metaWrite => .old
+  | .metaFsync => .metaVolatile
+  | .postMeta => .new
+
+/-- the pipeline's disk component in each cut -/
+def cutHolds (pre post : Dur Node VH) (d : DiskSt Node VH) : Cut → Prop
+  | .old => d.synced = pre ∧ d.pending = none
+  | .metaVolatile => d.synced = pre ∧ d.pending = some post
+  | .new => d.synced = post ∧ d.pending = none
 
 end Nomt.Api.Pipe
